@@ -13,6 +13,8 @@
 #include <dirent.h>
 #include <sys/stat.h>
 
+#define C19_CORPUS "/verif/corpus/C19"
+
 static long f_execs;
 
 int
@@ -70,9 +72,11 @@ finish(void)
 	done = true;
 	vf_stat("fuzz_execs", f_execs);
 	report_stats();
+	endpoint_close();
 	vf_nng_fini("C19");
 	rm_rf(f_dir);
 	(void) vf_finish();
+	vacuity_guard();
 }
 
 int
@@ -80,16 +84,64 @@ LLVMFuzzerInitialize(int *argcp, char ***argvp)
 {
 	int    argc = *argcp;
 	char **argv = *argvp;
+	if (argc > 1 && argv[1][0] == '-' && argv[1][1] != '-') {
+		// started by libFuzzer itself (inner process of -merge=1): keep
+		// its flags, no vfh command line, no report
+		char *self[] = { argv[0], "--out", "/dev/null", NULL };
+		vf_init(3, self);
+		vf_nng_init(1, 1, 1);
+		endpoint_open();
+		return 0;
+	}
 	vf_init(argc, argv);
 	run_canaries();
 	vf_nng_init(1, 1, 1);
+	endpoint_open();
+	// Corpus maintenance (not used by ./vf check):
+	//   --mode grow:<dir>        fuzz with <dir> as the writable corpus
+	//   --mode merge:<dst>,<src> libFuzzer -merge=1 of <src> into <dst>
+	const char *grow = !strncmp(vf_mode, "grow:", 5) ? vf_mode + 5 : NULL;
+	if (!strncmp(vf_mode, "merge:", 6)) {
+		static char  dst[300], src[300];
+		static char *ma[8];
+		const char  *c = strchr(vf_mode + 6, ',');
+		if (c == NULL) vf_harness_fail("--mode merge:<dst>,<src>");
+		snprintf(dst, sizeof(dst), "%.*s", (int) (c - (vf_mode + 6)), vf_mode + 6);
+		snprintf(src, sizeof(src), "%s", c + 1);
+		ma[0] = argv[0];
+		ma[1] = "-merge=1";
+		ma[2] = "-max_len=640";
+		ma[3] = "-detect_leaks=0";
+		ma[4] = dst;
+		ma[5] = src;
+		ma[6] = NULL;
+		*argcp = 6;
+		*argvp = ma;
+		return 0;
+	}
 
+	// scratch directories of runs that crashed (a sanitizer abort skips
+	// finish()): remove those whose process is gone
+	DIR *od = opendir("/verif/out");
+	if (od != NULL) {
+		struct dirent *e;
+		while ((e = readdir(od)) != NULL) {
+			long pid = 0;
+			if (sscanf(e->d_name, "c19-fuzz.%ld.", &pid) == 1 && pid > 0 && kill((pid_t) pid, 0) != 0 && errno == ESRCH) {
+				char old[300];
+				snprintf(old, sizeof(old), "/verif/out/%s", e->d_name);
+				rm_rf(old);
+			}
+		}
+		closedir(od);
+	}
 	snprintf(f_dir, sizeof(f_dir), "/verif/out/c19-fuzz.%ld.%d", (long) getpid(), vf_shard);
 	rm_rf(f_dir);
 	if (mkdir("/verif/out", 0755) != 0 && errno != EEXIST) vf_harness_fail("mkdir /verif/out");
 	if (mkdir(f_dir, 0755) != 0) vf_harness_fail("mkdir %s: %s", f_dir, strerror(errno));
 	char p[400], corp[300], art[300], dict[300];
 	snprintf(corp, sizeof(corp), "%s/corpus", f_dir);
+	if (grow != NULL) snprintf(corp, sizeof(corp), "%s", grow);
 	mkdir(corp, 0755);
 	for (size_t i = 0; i < sizeof(corpus) / sizeof(corpus[0]); i++) {
 		snprintf(p, sizeof(p), "%s/lit%03zu", corp, i);
@@ -134,6 +186,19 @@ LLVMFuzzerInitialize(int *argcp, char ***argvp)
 	fa[fargc++] = strdup(art);
 	for (int i = 0; fargv[i] != NULL; i++) fa[fargc++] = fargv[i];
 	fa[fargc++] = strdup(corp);
+	// committed seed corpus (read only: libFuzzer writes new units into the
+	// first directory, the scratch one); found once by long -merge'd runs
+	long nseed = 0;
+	DIR *cd = opendir(C19_CORPUS);
+	if (cd != NULL) {
+		struct dirent *e;
+		while ((e = readdir(cd)) != NULL) {
+			if (e->d_name[0] != '.') nseed++;
+		}
+		closedir(cd);
+		if (nseed > 0) fa[fargc++] = C19_CORPUS;
+	}
+	vf_stat("fuzz_committed_seed_files", nseed);
 	fa[fargc] = NULL;
 	atexit(finish);
 	*argcp = fargc;
